@@ -5,6 +5,7 @@ package main
 
 import (
 	"bytes"
+	"encoding/hex"
 	"fmt"
 	"sort"
 	"strings"
@@ -204,6 +205,29 @@ func runC01(res *Result, d *Driver, g *Rng, tier string) {
 			res.Count("overlong:" + strings.Fields(line)[0])
 			if line != "err" || out != nil {
 				res.Violate("C01.overlong-not-refused:"+name+":"+fld, "a value longer than its fixed-width slot did not make encoding fail with an error: "+strings.Fields(line)[0], []string{encOp})
+			}
+		}
+		// a field given as hexadecimal text for a fixed binary slot: text that is not the hex form of exactly
+		// that many octets does not fit the slot — refused, never cut at the first bad digit
+		var hexFields []string
+		for f := range s.hexIn {
+			hexFields = append(hexFields, f)
+		}
+		sortStrings(hexFields)
+		for _, f := range hexFields {
+			n := s.hexIn[f]
+			good := hex.EncodeToString(g.Bytes(n))
+			for _, bad := range []string{good + "a", good[:2*n-1], good[:2*n-1] + "g", "zz" + good[2:], good[:n] + "-" + good[n+1:], good + "0g"} {
+				r := genFit(g, s, false)
+				r[f] = value{kind: kStr, str: []byte(bad)}
+				encOp := "enc " + name + " " + renderInput(name, r)
+				line, out, _, _ := goEnc(name, r)
+				ops, goOut = append(ops, encOp), append(goOut, line)
+				res.Eval(encOp, true)
+				res.Count("badhex:" + strings.Fields(line)[0])
+				if line != "err" || out != nil {
+					res.Violate("C01.overlong-not-refused:"+name+":"+f, fmt.Sprintf("%q is not the hex form of %d octets, but encoding did not fail: %s", bad, n, strings.Fields(line)[0]), []string{encOp})
+				}
 			}
 		}
 		if len(ops) > 4000 {
